@@ -749,6 +749,103 @@ fn run_s(n: i64, cap: usize, schedule: &[u8]) -> Obs {
   conclude(&s, rx, hp, hc)
 }
 
+// (D2, probe form) No scheduler and no yield points: the consumer polls with a waker whose `clone` (the moment
+// poll_next registers it) starts the producer's try_send on a helper thread and waits up to 300 ms for it.  In the
+// code as it is the waker mutex is held from before try_recv until the waker is stored, so the helper blocks until
+// poll_next has returned: the run is the schedule [C; P; C; C].  If "channel empty" and "waker stored" are not one
+// atomic step, the helper's send lands between them, finds no waker, and the consumer parks for ever with the event
+// in the channel - the lost wake-up the oracle rejects.  (A slow helper can only make the probe miss, never alarm.)
+const SP_SCHED: [u8; 4] = [1, 0, 1, 1];
+
+struct ProbeInner {
+  cw: Arc<CountWaker>,
+  on_clone: Mutex<Option<Box<dyn FnOnce() + Send>>>,
+}
+unsafe fn probe_clone(p: *const ()) -> std::task::RawWaker {
+  let arc = std::mem::ManuallyDrop::new(Arc::from_raw(p as *const ProbeInner));
+  if let Some(f) = arc.on_clone.lock().unwrap().take() {
+    f();
+  }
+  let a2: Arc<ProbeInner> = (*arc).clone();
+  std::task::RawWaker::new(Arc::into_raw(a2) as *const (), &PROBE_VTABLE)
+}
+unsafe fn probe_wake(p: *const ()) {
+  let arc = Arc::from_raw(p as *const ProbeInner);
+  arc.cw.wake_by_ref();
+}
+unsafe fn probe_wake_by_ref(p: *const ()) {
+  let arc = std::mem::ManuallyDrop::new(Arc::from_raw(p as *const ProbeInner));
+  arc.cw.wake_by_ref();
+}
+unsafe fn probe_drop(p: *const ()) {
+  drop(Arc::from_raw(p as *const ProbeInner));
+}
+static PROBE_VTABLE: std::task::RawWakerVTable =
+  std::task::RawWakerVTable::new(probe_clone, probe_wake, probe_wake_by_ref, probe_drop);
+
+fn run_s_probe(cap: usize) -> Obs {
+  use crate::dds::statusevents::StatusEvented;
+  let (sender, receiver) = sync_status_channel::<i64>(cap).unwrap();
+  let (cw, _plain) = count_waker();
+  let sender = Arc::new(sender);
+  let s2 = sender.clone();
+  let (done_tx, done_rx) = mpsc::channel::<()>();
+  let inject: Box<dyn FnOnce() + Send> = Box::new(move || {
+    let h = thread::spawn(move || {
+      let _ = s2.try_send(0);
+      let _ = done_tx.send(());
+    });
+    let _ = done_rx.recv_timeout(StdDuration::from_millis(300));
+    std::mem::forget(h);
+  });
+  let inner = Arc::new(ProbeInner { cw: cw.clone(), on_clone: Mutex::new(Some(inject)) });
+  let waker = unsafe { Waker::from_raw(std::task::RawWaker::new(Arc::into_raw(inner) as *const (), &PROBE_VTABLE)) };
+  let r = std::panic::catch_unwind(std::panic::AssertUnwindSafe(|| {
+    let mut cx = Context::from_waker(&waker);
+    let (mut polls, mut pends, mut delivered) = (0i64, 0i64, 0i64);
+    loop {
+      polls += 1;
+      let mut stream = receiver.as_async_status_stream();
+      match Pin::new(&mut stream).poll_next(&mut cx) {
+        Poll::Ready(Some(_)) => delivered += 1,
+        Poll::Ready(None) => panic!("status stream ended"),
+        Poll::Pending => {
+          pends += 1;
+          // the executor's sleep: poll again only after the waker was invoked; the producer has only one event
+          let t0 = std::time::Instant::now();
+          let mut woken = false;
+          while t0.elapsed() < StdDuration::from_millis(if delivered == 0 { 3000 } else { 300 }) {
+            if cw.woken.swap(false, Ordering::SeqCst) {
+              woken = true;
+              break;
+            }
+            thread::sleep(StdDuration::from_millis(2));
+          }
+          if !woken {
+            break;
+          }
+        }
+      }
+    }
+    let mut leftover = 0i64;
+    while receiver.try_recv().is_ok() {
+      leftover += 1;
+    }
+    (polls, pends, delivered, leftover)
+  }));
+  match r {
+    Ok((polls, pends, delivered, leftover)) => Obs::Obs {
+      quiescent: true,
+      delivered,
+      leftover,
+      polls,
+      wakes: cw.wakes.load(Ordering::SeqCst) as i64,
+      pends,
+    },
+    Err(_) => Obs::Panic,
+  }
+}
+
 // ---------------------------------------------------------------------------------------------
 // cases
 #[derive(Clone, Debug)]
@@ -758,6 +855,9 @@ enum Case {
   C { cap: usize, n: i64, l: Vec<u8> },
   B { v08: bool, n: i64, l: Vec<u8> },
   S { n: i64, cap: usize, l: Vec<u8> },
+  /// (D2) the same as `S { n: 1, cap, l: [C, P, C, C] }`, but the producer's step is injected from the clone of the
+  /// consumer's waker (no scheduler): it lands INSIDE poll_next if registration is not atomic with the emptiness check
+  SP { cap: usize },
 }
 
 fn coq_sched(l: &[u8]) -> String {
@@ -771,6 +871,7 @@ impl Case {
       Case::D { cap, q0, l } => format!("(CaseD {} {} {})", cap, q0, coq_sched(l)),
       Case::C { cap, n, l } => format!("(CaseC {} {} {})", cap, n, coq_sched(l)),
       Case::S { n, cap, l } => format!("(CaseS {} {} {})", n, cap, coq_sched(l)),
+      Case::SP { cap } => format!("(CaseS 1 {} {})", cap, coq_sched(&SP_SCHED)),
       Case::B { v08, n, l } => format!(
         "(CaseB {} {} {} {})",
         if *v08 { "B.V08" } else { "B.V06" },
@@ -787,11 +888,13 @@ impl Case {
       Case::C { cap, n, l } => run_c(*cap, *n, l),
       Case::B { v08, n, l } => run_b(*v08, *n, l),
       Case::S { n, cap, l } => run_s(*n, *cap, l),
+      Case::SP { cap } => run_s_probe(*cap),
     }
   }
   fn sched(&self) -> &[u8] {
     match self {
       Case::A { l, .. } | Case::D { l, .. } | Case::C { l, .. } | Case::B { l, .. } | Case::S { l, .. } => l,
+      Case::SP { .. } => &SP_SCHED,
     }
   }
   fn name(&self) -> &'static str {
@@ -800,6 +903,7 @@ impl Case {
       Case::D { .. } => "D",
       Case::C { .. } => "C",
       Case::S { .. } => "D2",
+      Case::SP { .. } => "D2probe",
       Case::B { v08: true, .. } => "B08",
       Case::B { v08: false, .. } => "B06",
     }
@@ -898,6 +1002,9 @@ fn corpus_fixed() -> Vec<Case> {
     Case::S { n: 2, cap: 4, l: s("C P C C P C") },
     Case::S { n: 3, cap: 3, l: s("P P P C C C C C") },
     Case::S { n: 1, cap: 1, l: s("C C P C C") },
+    // (D2) producer injected from inside the consumer's waker registration (seeded change C13-B)
+    Case::SP { cap: 4 },
+    Case::SP { cap: 1 },
   ]
 }
 
